@@ -44,6 +44,12 @@ def make_enum(defn):
     return _CACHE[key]
 
 
+SPECIAL = {"__eq__": lambda a, b: False, "__hash__": lambda a: 0, "__str__": lambda a: "x", "__repr__": lambda a: "x", "__doc__": "changed",
+           "__copy__": lambda a: None, "__deepcopy__": lambda a, memo: None, "__getnewargs_ex__": lambda a: ((), {}), "__module__": "elsewhere",
+           "__setattr__": object.__setattr__, "__int__": lambda a: 0, "_value_map_": {}, "_member_map_": {}, "__call__": None, "__members__": {},
+           "__final__": True, "__deprecated__": "use something else"}
+
+
 def observe(E, defn):
     o = {"err": "", "members": [], "undefined": []}
     try:
@@ -98,6 +104,12 @@ def run_enum(args):
                 setattr(E, "BRAND_NEW", 5)
             elif k == "delattr_class":
                 delattr(E, defn[0][0])
+            elif k == "setattr_special":         # special / bookkeeping names are attributes of the class like any other
+                e["s"] = op[1]
+                setattr(E, op[1], SPECIAL[op[1]])
+            elif k == "delattr_special":
+                e["s"] = op[1]
+                delattr(E, op[1])
             elif k == "setattr_member":
                 E[defn[0][0]].name = "X"
             elif k == "setattr_value":
@@ -139,11 +151,13 @@ def run(ctx):
             ops = []
             for _ in range(rnd.randint(4, 10)):
                 k = rnd.choice(["bynum", "try", "byname", "fromstring", "copy", "deepcopy", "pickle", "try", "bynum", "setattr_class", "delattr_class",
-                                "setattr_member", "delattr_member", "setattr_new", "setattr_value"])
+                                "setattr_member", "delattr_member", "setattr_new", "setattr_value", "setattr_special", "delattr_special"])
                 if k in ("bynum", "try", "copy", "deepcopy", "pickle"):
                     ops.append([k, rnd.choice(PROBES)])
                 elif k in ("byname", "fromstring"):
                     ops.append([k, rnd.choice(names + ["ZZZ"])])
+                elif k.endswith("_special"):
+                    ops.append([k, rnd.choice(sorted(SPECIAL))])
                 else:
                     ops.append([k])
             work.append((d, ops))
